@@ -54,6 +54,26 @@ Definition nat1_bwd_eta1 (gmu gL mu L : tc) : tc :=
 (* the map from expectation parameters back to (mu, L) that the backward differentiates *)
 Definition eta_to_L (e1 e2 : tc) : tc := tsqrt (tsub e2 (tsq e1)).
 
+(* _NgdInterpTerms (variational/ciq_variational_strategy.py) for ONE inducing value and ONE data point.
+   forward(k, theta1, theta2): prec = -2 theta2, m = theta1 / prec (CG solve), sk = k / prec,
+   interp_mean = sk * theta1, interp_var = sk * k, kl = 0 (value not computed); saved: k, sk, interp_mean,
+   theta1 (natural_vec), m (expec_vec), prec.
+   backward(gm, gv, gk) (upstream gradients of mean, variance, KL) claims to return the gradient with respect to
+   the interpolation term k and to the EXPECTATION parameters eta1 = m, eta2 = m^2 + S (S = 1/prec):
+     dk    = 2 gv sk + gm m
+     deta1 = -2 gv interp_mean k + gm k + gk natural_vec
+     deta2 = gv k k + gk (1 - prec) / 2 *)
+Definition ciq1_prec (th2 : tc) : tc := tmul (tneg t2) th2.
+Definition ciq1_m (th1 th2 : tc) : tc := tdiv th1 (ciq1_prec th2).
+Definition ciq1_sk (k th2 : tc) : tc := tdiv k (ciq1_prec th2).
+Definition ciq1_mean (k th1 th2 : tc) : tc := tmul (ciq1_sk k th2) th1.
+Definition ciq1_var (k th2 : tc) : tc := tmul (ciq1_sk k th2) k.
+Definition ciq1_bwd_k (gm gv sk m : tc) : tc := tadd (tmul (tmul gv sk) t2) (tmul gm m).
+Definition ciq1_bwd_eta1 (gm gv gk k imean natvec : tc) : tc :=
+  tadd (tadd (tmul (tmul (tmul gv imean) k) (tneg t2)) (tmul gm k)) (tmul gk natvec).
+Definition ciq1_bwd_eta2 (gv gk k prec : tc) : tc :=
+  tadd (tmul (tmul gv k) k) (tmul gk (tdiv (tsub t1 prec) t2)).
+
 End Generic.
 
 (* LogNormalCDF.backward, branch z >= -1:  exp(-z^2/2 - log_phi_z + log(1/2)) * sqrt(2/pi) *)
@@ -63,14 +83,25 @@ Definition lncdf_bwd_R (z logphi : R) : R :=
 Definition lncdf_grad_expr (z : expr) : expr :=
   EDiv (EDiv (EExp (EDiv (ENeg (EMul z z)) (EConst (Q2Qc 2)))) (ESqrt (EMul (EConst (Q2Qc 2)) EPi))) (EPhi z).
 Definition lncdf_value_expr (z : expr) : expr := ELog (EPhi z).
+(* the vector-Jacobian product LogNormalCDF.backward returns for an upstream gradient g (any sign) *)
+Definition lncdf_vjp_R (g z logphi : R) : R := (g * lncdf_bwd_R z logphi)%R.
+
+(* the objective whose gradient _NgdInterpTerms.backward claims to return, as a function of the expectation
+   parameters (e1, e2) of q(u) and of the interpolation term k (one inducing value, one data point):
+   gm * mean + gv * variance-term + gk * KL(q(u) || N(0,1)),
+   mean = k e1, variance-term = k^2 (e2 - e1^2), KL = 1/2 (-ln(e2 - e1^2) + e2 - 1) *)
+Definition ciq1_kl_R (e1 e2 : R) : R := ((- ln (e2 - e1 * e1) + e2 - 1) / 2)%R.
+Definition ciq1_obj_R (gm gv gk k e1 e2 : R) : R :=
+  (gm * (k * e1) + gv * (k * k * (e2 - e1 * e1)) + gk * ciq1_kl_R e1 e2)%R.
 
 (* ------------------------------------------------------------------ executable wrapper *)
 Inductive djob : Type :=
 | DRBF (l : Qc)                          (* per pair: value, d value / d lengthscale *)
 | DMatern (nu2 : nat) (l : Qc)
 | DLnCdf                                  (* x1 = [[z]]: value, derivative *)
-| DNat1 (gmu gS : Qc).                    (* x1 = [[theta1; theta2]]; upstream gradients of the mean and
+| DNat1 (gmu gS : Qc)                     (* x1 = [[theta1; theta2]]; upstream gradients of the mean and
                                             of the VARIANCE L^2 (so dout/dL = 2 gS L): mu, L, deta1, deta2 *)
+| DCiq1 (gm gv gk : Qc).                  (* x1 = [[k; theta1; theta2]]: interp_mean, interp_var, dk, deta1, deta2 *)
 
 Definition run_djob (c : djob * list (list Qc) * list (list Qc)) : list Z :=
   let '(j, x1, x2) := c in
@@ -100,4 +131,13 @@ Definition run_djob (c : djob * list (list Qc) * list (list Qc)) : list Z :=
       ser_expr mu ++ ser_expr L
       ++ ser_expr (@nat1_bwd_eta1 TE (EConst gmu) gL mu L)
       ++ ser_expr (@nat1_bwd_eta2 TE gL L)
+  | DCiq1 gm gv gk =>
+      let k := EConst (nth 0 (nth 0 x1 []) 0%Qc) in
+      let th1 := EConst (nth 1 (nth 0 x1 []) 0%Qc) in
+      let th2 := EConst (nth 2 (nth 0 x1 []) 0%Qc) in
+      let im := @ciq1_mean TE k th1 th2 in
+      ser_expr im ++ ser_expr (@ciq1_var TE k th2)
+      ++ ser_expr (@ciq1_bwd_k TE (EConst gm) (EConst gv) (@ciq1_sk TE k th2) (@ciq1_m TE th1 th2))
+      ++ ser_expr (@ciq1_bwd_eta1 TE (EConst gm) (EConst gv) (EConst gk) k im th1)
+      ++ ser_expr (@ciq1_bwd_eta2 TE (EConst gv) (EConst gk) k (@ciq1_prec TE th2))
   end.
